@@ -121,6 +121,14 @@ Lemma nth_error_set_nth_neq {A} (l : list A) i j x :
   i <> j -> nth_error (set_nth i x l) j = nth_error l j.
 Proof. revert i j; induction l as [|h t IH]; intros [|i] [|j] H; simpl; auto; try congruence. Qed.
 
+(* all elements present *)
+Fixpoint all_some {A} (l : list (option A)) : option (list A) :=
+  match l with
+  | [] => Some []
+  | Some a :: t => match all_some t with Some r => Some (a :: r) | None => None end
+  | None :: _ => None
+  end.
+
 Fixpoint list_eqb {A} (eqb : A -> A -> bool) (l1 l2 : list A) : bool :=
   match l1, l2 with
   | [], [] => true
